@@ -363,7 +363,7 @@ Definition develop_one (cell : lat_cell) (vecs : list vec) (iu : list Z * Z) : r
     let '(tx, ty, tz) := latticeVector vecs index in
     let trnsf := [tx; ty; tz] ++ identity9 in
     let fill := if universe =? lc_universe cell then None else Some universe in
-    bind (if is_nil (lc_filltr cell) then Ok trnsf else compose_transform trnsf (lc_filltr cell))
+    bind (if is_nil (lc_filltr cell) then Ok trnsf else compose_transform (lc_filltr cell) trnsf)
          (fun new_filltr =>
     bind (if negb (is_nil (lc_trcl cell)) && is_nil (lc_filltr cell)
           then fold_trcl (lc_trcl cell) new_filltr else Ok new_filltr)
